@@ -30,6 +30,16 @@ Definition mkx (mx : Z) (s : cst) : pw :=
      pw_cur := O; pw_cancel_tasks := []; pw_cancel_cos := []; pw_running_tasks := c_rt s; pw_spin := false;
      pw_tpool := c_tp s; pw_defects := [] |}.
 
+(** the pools of C15 have no keep-alive: the keep-alive rounds of the fuel formulas vanish *)
+Lemma keep_rounds_mkx mx s : keep_rounds (mkx mx s) = O.
+Proof. reflexivity. Qed.
+Lemma wfuel_mkx mx s :
+  wfuel (mkx mx s) = (S (S (length (c_tb s))) + fold_right Nat.add O (map (fun b => S (S (length b))) (c_tb s)) + length (c_ws s))%nat.
+Proof. unfold wfuel. rewrite keep_rounds_mkx, Nat.add_0_r. reflexivity. Qed.
+Lemma pass_fuel_p_mkx mx s :
+  pass_fuel_p (mkx mx s) = (S (S (wfuel (mkx mx s))) * S (S (length (c_ws s) + length (c_tb s))))%nat.
+Proof. unfold pass_fuel_p. rewrite keep_rounds_mkx. reflexivity. Qed.
+
 (* ---- setters ---- *)
 Definition s_ws (s : cst) (ws : list worker) : cst :=
   {| c_clock := c_clock s; c_ts := c_ts s; c_ws := ws; c_wp := c_wp s; c_tq := c_tq s; c_cq := c_cq s; c_tb := c_tb s;
